@@ -6,6 +6,7 @@
 mod util;
 mod c01;
 mod c05;
+mod stats;
 
 fn main() {
     let args: Vec<String> = std::env::args().collect();
@@ -18,6 +19,8 @@ fn main() {
         ("c01", "record") => c01::record(rest),
         ("c05", "replay") => c05::replay(rest),
         ("c05", "record") => c05::record(rest),
+        ("stats", "replay") => stats::replay(rest),
+        ("stats", "basic") => stats::basic(rest),
         (p, m) => util::tool_error(&format!("unknown command {p} {m}")),
     }
 }
